@@ -62,11 +62,11 @@ Qed.
 (* ---------------------------------------------------------------- bounds of the denotation *)
 Section DB.
 Variable input : list N.
-Variable ci multi : bool.
+Variable ci multi single : bool.
 Let n := length input.
 
-Lemma D_le xpath : (forall b, ok_b xpath b = true -> forall p q, p <= n -> In q (Db input ci multi b p) -> q <= n)
-  /\ (forall a, ok_a xpath a = true -> forall p q, p <= n -> In q (Da input ci multi a p) -> q <= n).
+Lemma D_le xpath : (forall b, ok_b xpath b = true -> forall p q, p <= n -> In q (Db input ci multi single b p) -> q <= n)
+  /\ (forall a, ok_a xpath a = true -> forall p q, p <= n -> In q (Da input ci multi single a p) -> q <= n).
 Proof.
   apply branch_alt_ind.
   - intros cs _ p q Hp H. cbn [Db] in H. apply lit_le in H. tauto.
@@ -76,11 +76,15 @@ Proof.
   - intros cs c k rel b IHb Hok p q Hp H. cbn [ok_b] in Hok. apply andb_true_iff in Hok as [Hok Okb].
     apply andb_true_iff in Hok as [_ Hk]. cbn [Db] in H. apply in_flat_map in H as (m & Hm & H).
     apply in_flat_map in Hm as (m1 & Hm1 & Hm). apply lit_le in Hm1. eapply (IHb Okb); [|exact H].
-    eapply (Dq_le input ci multi); [exact Hk| |exact Hm]. tauto.
+    eapply (Dq_le input ci multi single); [exact Hk| |exact Hm]. tauto.
   - intros cs eol b IHb Hok p q Hp H. cbn [ok_b] in Hok. apply andb_true_iff in Hok as [_ Okb].
     cbn [Db] in H. apply in_flat_map in H as (m & Hm & H).
     apply in_flat_map in Hm as (m1 & Hm1 & Hm). apply lit_le in Hm1. eapply (IHb Okb); [|exact H].
-    eapply (Dan_le input ci multi); [|exact Hm]. tauto.
+    eapply (Dan_le input ci multi single); [|exact Hm]. tauto.
+  - intros cs q0 b IHb Hok p q Hp H. cbn [ok_b] in Hok. apply andb_true_iff in Hok as [Hok Okb].
+    apply andb_true_iff in Hok as [_ Hkq]. cbn [Db] in H. apply in_flat_map in H as (m & Hm & H).
+    apply in_flat_map in Hm as (m1 & Hm1 & Hm). apply lit_le in Hm1. eapply (IHb Okb); [|exact H].
+    eapply (Dd_le input ci multi single xpath); [exact Hkq| |exact Hm]. tauto.
   - intros b IHb Hok p q Hp H. exact (IHb Hok p q Hp H).
   - intros b IHb a IHa Hok p q Hp H. cbn [ok_a] in Hok. apply andb_true_iff in Hok as [Okb Oka].
     cbn [Da] in H. apply in_app_iff in H as [H|H]; eauto.
@@ -94,10 +98,12 @@ Variable input : list N.
 Variable fl : sflags.
 Let ci := s_i fl.
 Let multi := s_m fl.
+Let single := s_s fl.
 Let n := length input.
 Let E (r : re) (p : nat) : list nat := ends fl input r p.
 Let SE (rs : list re) (A : list nat) : list nat := seq_ends input fl rs A.
 Hypothesis Hfit : (N.of_nat n < umax)%N.
+Hypothesis Hvalid : valid_in input.
 (* in priority order *)
 Let O (r : re) (m : nat) (e : env) : list nat := map fst (Sem.R fl input r m e).
 Let OS (rs : list re) (m : nat) (e : env) : list nat := map fst (seqR input fl rs m e).
@@ -156,13 +162,13 @@ Proof.
     cbn [flat_map]. rewrite !app_nil_r. destruct (Nat.eqb (S i) i); [reflexivity|]. apply IH. }
   destruct g; rewrite !map_app; rewrite Hm; destruct (N.leb mn (N.of_nat k)); reflexivity.
 Qed.
-Lemma O_quant_char c k rel m e : O (RQuant (RChar c) (qmin k) (qmaxo k) (negb rel)) m e = DqO input ci multi c k rel m.
+Lemma O_quant_char c k rel m e : O (RQuant (RChar c) (qmin k) (qmaxo k) (negb rel)) m e = DqO input ci multi single c k rel m.
 Proof. unfold O, DqO. cbn [Sem.R]. apply quantR_char_env. Qed.
-Lemma O_anchor (eol : bool) m e : O (if eol then REol else RBol) m e = DanO input ci multi eol m.
+Lemma O_anchor (eol : bool) m e : O (if eol then REol else RBol) m e = DanO input ci multi single eol m.
 Proof.
   unfold O, DanO. destruct eol; cbn [Sem.R].
-  - change (eol_at (fl_of ci multi) input m) with (eol_at fl input m). destruct (eol_at fl input m); reflexivity.
-  - change (bol_at (fl_of ci multi) input m) with (bol_at fl input m). destruct (bol_at fl input m); reflexivity.
+  - change (eol_at (fl_of ci multi single) input m) with (eol_at fl input m). destruct (eol_at fl input m); reflexivity.
+  - change (bol_at (fl_of ci multi single) input m) with (bol_at fl input m). destruct (bol_at fl input m); reflexivity.
 Qed.
 
 Lemma SE_app l1 l2 A : SE (l1 ++ l2) A = SE l2 (SE l1 A).
@@ -251,21 +257,52 @@ Proof.
   destruct c as [|p]; [reflexivity|].
   do 6 (try (destruct p as [p|p|]); try reflexivity). discriminate.
 Qed.
-Lemma Dq_flags c k rel m : E (RQuant (RChar c) (qmin k) (qmaxo k) (negb rel)) m = Dq input ci multi c k rel m.
+Lemma Dq_flags c k rel m : E (RQuant (RChar c) (qmin k) (qmaxo k) (negb rel)) m = Dq input ci multi single c k rel m.
 Proof. reflexivity. Qed.
 
 (* an anchor *)
 Lemma p_atom_anchor f st (eol : bool) t : p_atom (S f) true st ((if eol then 36%N else 94%N) :: t)
   = PV ((if eol then REol else RBol), st) t.
 Proof. destruct eol; reflexivity. Qed.
-Lemma Dan_flags (eol : bool) m : E (if eol then REol else RBol) m = Dan input ci multi eol m.
+Lemma Dan_flags (eol : bool) m : E (if eol then REol else RBol) m = Dan input ci multi single eol m.
 Proof. destruct eol; reflexivity. Qed.
+
+(* a dot *)
+Lemma p_atom_dot f st t : p_atom (S f) xpath st (46%N :: t) = PV (RDot, st) t.
+Proof. reflexivity. Qed.
+Lemma Dd_flags q m : E (dot_re q) m = Dd input ci multi single q m.
+Proof. destruct q as [[k rel]|]; reflexivity. Qed.
+Lemma quantR_dot_env mn mx g : forall fuel k i e e',
+  map fst (quantR (Sem.R fl input RDot) mn mx g fuel k i e)
+  = map fst (quantR (Sem.R fl input RDot) mn mx g fuel k i e').
+Proof.
+  induction fuel as [|f IH]; intros k i e e'; [reflexivity|]. cbn [quantR].
+  assert (Hm : map fst (if mx_allows k mx then
+                 flat_map (fun je : nat * env => let '(j, e'0) := je in
+                             if Nat.eqb j i then [(j, e'0)] else quantR (Sem.R fl input RDot) mn mx g f (S k) j e'0)
+                          (Sem.R fl input RDot i e) else [])
+             = map fst (if mx_allows k mx then
+                 flat_map (fun je : nat * env => let '(j, e'0) := je in
+                             if Nat.eqb j i then [(j, e'0)] else quantR (Sem.R fl input RDot) mn mx g f (S k) j e'0)
+                          (Sem.R fl input RDot i e') else [])).
+  { destruct (mx_allows k mx); [|reflexivity]. cbn [Sem.R]. unfold one_charR.
+    destruct (char_at input i) as [x|]; [|reflexivity]. destruct (dot_mem fl x); [|reflexivity].
+    cbn [flat_map]. rewrite !app_nil_r. destruct (Nat.eqb (S i) i); [reflexivity|]. apply IH. }
+  destruct g; rewrite !map_app; rewrite Hm; destruct (N.leb mn (N.of_nat k)); reflexivity.
+Qed.
+Lemma O_dot q m e : O (dot_re q) m e = DdO input ci multi single q m.
+Proof.
+  unfold O, DdO. destruct q as [[k rel]|]; cbn [dot_re Sem.R].
+  - apply quantR_dot_env.
+  - change (dot_mem (fl_of ci multi single)) with (dot_mem fl). unfold one_charR.
+    destruct (char_at input m); [|reflexivity]. destruct (dot_mem fl n0); reflexivity.
+Qed.
 
 Definition Q_b (b : branch) : Prop :=
   ok_b xpath b = true -> forall post st acc fuel, term_b post -> 6 * length (show_b b) + 6 <= fuel ->
     exists rs st', p_branch fuel xpath st (show_b b ++ post) acc = PV (RSeq (rev acc ++ rs), st') post
-      /\ (forall m q, m <= n -> (In q (SE rs [m]) <-> In q (Db input ci multi b m)))
-      /\ (forall m e, m <= n -> OS rs m e = DbO input ci multi b m).
+      /\ (forall m q, m <= n -> (In q (SE rs [m]) <-> In q (Db input ci multi single b m)))
+      /\ (forall m e, m <= n -> OS rs m e = DbO input ci multi single b m).
 
 Definition Q_a (a : alt) : Prop :=
   ok_a xpath a = true -> forall post st acc f1 f2, term_a post ->
@@ -273,9 +310,9 @@ Definition Q_a (a : alt) : Prop :=
     exists b st1 rest1 bs st', p_branch f1 xpath st (show_a a ++ post) [] = PV (b, st1) rest1
       /\ p_more f2 xpath st1 rest1 (b :: acc) = PV (bs, st') post /\ bs <> []
       /\ (forall p q, p <= n -> ((exists x, In x bs /\ In q (E x p))
-                                 <-> (exists x, In x acc /\ In q (E x p)) \/ In q (Da input ci multi a p)))
+                                 <-> (exists x, In x acc /\ In q (E x p)) \/ In q (Da input ci multi single a p)))
       /\ (forall p e, p <= n -> flat_map (fun x => O x p e) (rev bs)
-                                 = flat_map (fun x => O x p e) (rev acc) ++ DaO input ci multi a p).
+                                 = flat_map (fun x => O x p e) (rev acc) ++ DaO input ci multi single a p).
 
 Theorem spec_parses : (forall b, Q_b b) /\ (forall a, Q_a a).
 Proof.
@@ -304,8 +341,8 @@ Proof.
     rewrite p_piece_S.
     (* the group *)
     assert (Hatom : exists g st2, p_atom (S f3) xpath st (40%N :: opt ++ inner ++ 41%N :: rest ++ post) = PV (g, st2) (rest ++ post)
-              /\ (forall p q, p <= n -> (In q (E g p) <-> In q (Da input ci multi a p)))
-              /\ (forall p e, p <= n -> O g p e = DaO input ci multi a p)).
+              /\ (forall p q, p <= n -> (In q (E g p) <-> In q (Da input ci multi single a p)))
+              /\ (forall p e, p <= n -> O g p e = DaO input ci multi single a p)).
     { destruct cap; subst opt; cbn [app].
       - rewrite p_atom_cap.
         2:{ pose proof (head_fine_a xpath a (41%N :: rest ++ post) Oka ltac:(right; eexists; reflexivity)) as Hh. fold inner in Hh.
@@ -344,20 +381,20 @@ Proof.
         apply SE_run in Hk1; auto. apply SE_one in Hk.
         assert (k1 <= n) by (apply lit_le in Hk1; tauto).
         apply Semg in Hk; auto.
-        assert (k <= n) by (eapply (proj2 (D_le input ci multi xpath)); eauto).
+        assert (k <= n) by (eapply (proj2 (D_le input ci multi single xpath)); eauto).
         apply Semb in Hq; auto.
         apply in_flat_map. exists k. split; [|exact Hq]. apply in_flat_map. exists k1. auto.
       * intros H. apply in_flat_map in H as (k & Hk & Hq). apply in_flat_map in Hk as (k1 & Hk1 & Hk).
         assert (k1 <= n) by (apply lit_le in Hk1; tauto).
-        assert (k <= n) by (eapply (proj2 (D_le input ci multi xpath)); eauto).
+        assert (k <= n) by (eapply (proj2 (D_le input ci multi single xpath)); eauto).
         exists k. split; [|apply Semb; auto].
         apply SE_in. exists k1. split; [apply SE_run; auto|]. apply SE_one. apply Semg; auto. }
       intros m e Hm. cbn [DbO]. rewrite flat_map_assoc. change (g :: rs) with ([g] ++ rs).
-      apply (OS_app (map RChar cs) ([g] ++ rs) (lit input ci cs) (fun k0 => flat_map (DbO input ci multi b') (DaO input ci multi a k0))); auto.
+      apply (OS_app (map RChar cs) ([g] ++ rs) (lit input ci cs) (fun k0 => flat_map (DbO input ci multi single b') (DaO input ci multi single a k0))); auto.
       * intros m0 e0 Hm0. apply OS_run. exact Hm0.
-      * intros m0 e0 Hm0. apply (OS_app [g] rs (DaO input ci multi a) (DbO input ci multi b')); auto.
+      * intros m0 e0 Hm0. apply (OS_app [g] rs (DaO input ci multi single a) (DbO input ci multi single b')); auto.
         -- intros m1 e1 Hm1. rewrite OS_one. apply Og. exact Hm1.
-        -- intros m1 q1 Hm1 Hq1. eapply (proj2 (DO_le xpath ci input multi 0 Hfit)); eauto.
+        -- intros m1 q1 Hm1 Hq1. eapply (proj2 (DO_le xpath ci single input multi 0 Hfit Hvalid)); eauto.
       * intros m0 q0 Hm0 Hq0. apply lit_le in Hq0. tauto.
   - (* BQ *) intros cs c k rel b' IHb Hok post st acc fuel Ht Hf.
     cbn [ok_b] in Hok. apply andb_true_iff in Hok as [Hok Okb]. apply andb_true_iff in Hok as [Hok Hkq].
@@ -395,22 +432,22 @@ Proof.
       * intros (k0 & Hk & Hq). apply SE_in in Hk. destruct Hk as (k1 & Hk1 & Hk).
         apply SE_run in Hk1; auto. apply SE_one in Hk. rewrite Dq_flags in Hk.
         assert (k1 <= n) by (apply lit_le in Hk1; tauto).
-        assert (k0 <= n) by (eapply (Dq_le input ci multi); eauto).
+        assert (k0 <= n) by (eapply (Dq_le input ci multi single); eauto).
         apply Semb in Hq; auto.
         apply in_flat_map. exists k0. split; [|exact Hq]. apply in_flat_map. exists k1. auto.
       * intros H. apply in_flat_map in H as (k0 & Hk & Hq). apply in_flat_map in Hk as (k1 & Hk1 & Hk).
         assert (k1 <= n) by (apply lit_le in Hk1; tauto).
-        assert (k0 <= n) by (eapply (Dq_le input ci multi); eauto).
+        assert (k0 <= n) by (eapply (Dq_le input ci multi single); eauto).
         exists k0. split; [|apply Semb; auto].
         apply SE_in. exists k1. split; [apply SE_run; auto|]. apply SE_one. rewrite Dq_flags. exact Hk. }
       intros m e Hm. cbn [DbO]. rewrite flat_map_assoc.
       change (RQuant (RChar c) (qmin k) (qmaxo k) (negb rel) :: rs) with ([RQuant (RChar c) (qmin k) (qmaxo k) (negb rel)] ++ rs).
       apply (OS_app (map RChar cs) ([RQuant (RChar c) (qmin k) (qmaxo k) (negb rel)] ++ rs) (lit input ci cs)
-               (fun k0 => flat_map (DbO input ci multi b') (DqO input ci multi c k rel k0))); auto.
+               (fun k0 => flat_map (DbO input ci multi single b') (DqO input ci multi single c k rel k0))); auto.
       * intros m0 e0 Hm0. apply OS_run. exact Hm0.
-      * intros m0 e0 Hm0. apply (OS_app [RQuant (RChar c) (qmin k) (qmaxo k) (negb rel)] rs (DqO input ci multi c k rel) (DbO input ci multi b')); auto.
+      * intros m0 e0 Hm0. apply (OS_app [RQuant (RChar c) (qmin k) (qmaxo k) (negb rel)] rs (DqO input ci multi single c k rel) (DbO input ci multi single b')); auto.
         -- intros m1 e1 Hm1. rewrite OS_one. apply O_quant_char.
-        -- intros m1 q1 Hm1 Hq1. eapply (DqO_le ci input multi 0 Hfit); eauto.
+        -- intros m1 q1 Hm1 Hq1. eapply (DqO_le ci single input multi 0 Hfit); eauto.
       * intros m0 q0 Hm0 Hq0. apply lit_le in Hq0. tauto.
   - (* BAn *) intros cs eol b' IHb Hok post st acc fuel Ht Hf.
     cbn [ok_b] in Hok. apply andb_true_iff in Hok as [Hok Okb]. apply andb_true_iff in Hok as [Ocs Hx].
@@ -438,22 +475,80 @@ Proof.
       * intros (k0 & Hk & Hq). apply SE_in in Hk. destruct Hk as (k1 & Hk1 & Hk).
         apply SE_run in Hk1; auto. apply SE_one in Hk. rewrite Dan_flags in Hk.
         assert (k1 <= n) by (apply lit_le in Hk1; tauto).
-        assert (k0 <= n) by (eapply (Dan_le input ci multi); eauto).
+        assert (k0 <= n) by (eapply (Dan_le input ci multi single); eauto).
         apply Semb in Hq; auto.
         apply in_flat_map. exists k0. split; [|exact Hq]. apply in_flat_map. exists k1. auto.
       * intros H. apply in_flat_map in H as (k0 & Hk & Hq). apply in_flat_map in Hk as (k1 & Hk1 & Hk).
         assert (k1 <= n) by (apply lit_le in Hk1; tauto).
-        assert (k0 <= n) by (eapply (Dan_le input ci multi); eauto).
+        assert (k0 <= n) by (eapply (Dan_le input ci multi single); eauto).
         exists k0. split; [|apply Semb; auto].
         apply SE_in. exists k1. split; [apply SE_run; auto|]. apply SE_one. rewrite Dan_flags. exact Hk. }
       intros m e Hm. cbn [DbO]. rewrite flat_map_assoc.
       change ((if eol then REol else RBol) :: rs) with ([if eol then REol else RBol] ++ rs).
       apply (OS_app (map RChar cs) ([if eol then REol else RBol] ++ rs) (lit input ci cs)
-               (fun k0 => flat_map (DbO input ci multi b') (DanO input ci multi eol k0))); auto.
+               (fun k0 => flat_map (DbO input ci multi single b') (DanO input ci multi single eol k0))); auto.
       * intros m0 e0 Hm0. apply OS_run. exact Hm0.
-      * intros m0 e0 Hm0. apply (OS_app [if eol then REol else RBol] rs (DanO input ci multi eol) (DbO input ci multi b')); auto.
+      * intros m0 e0 Hm0. apply (OS_app [if eol then REol else RBol] rs (DanO input ci multi single eol) (DbO input ci multi single b')); auto.
         -- intros m1 e1 Hm1. rewrite OS_one. apply O_anchor.
-        -- intros m1 q1 Hm1 Hq1. eapply (DanO_le ci input multi 0); eauto.
+        -- intros m1 q1 Hm1 Hq1. eapply (DanO_le ci single input multi 0); eauto.
+      * intros m0 q0 Hm0 Hq0. apply lit_le in Hq0. tauto.
+  - (* BD *) intros cs q b' IHb Hok post st acc fuel Ht Hf.
+    cbn [ok_b] in Hok. apply andb_true_iff in Hok as [Hok Okb]. apply andb_true_iff in Hok as [Ocs Hkq].
+    cbn [show_b] in Hf |- *. set (rest := show_b b') in *.
+    assert (Lsh : length (cs ++ 46%N :: qtext q ++ rest) = length cs + 1 + length (qtext q) + length rest)
+      by (rewrite app_length; cbn [length]; rewrite app_length; lia).
+    rewrite Lsh in Hf.
+    replace ((cs ++ 46%N :: qtext q ++ rest) ++ post) with (cs ++ 46%N :: qtext q ++ rest ++ post)
+      by (rewrite <- app_assoc; cbn [app]; rewrite <- app_assoc; reflexivity).
+    rewrite (p_branch_run xpath cs fuel st _ acc Ocs) by (try (cbn; auto 10); lia).
+    destruct (fuel - length cs) as [|[|[|f3]]] eqn:Ef; try lia.
+    rewrite p_branch_S. change ((46 =? 124) || (46 =? 41))%N with false. cbv iota.
+    rewrite p_piece_S, p_atom_dot. cbn [pbind].
+    assert (Hh : head_fine (rest ++ post)) by (apply (head_fine_b xpath); auto).
+    assert (Epiece : pbind (p_quant (qtext q ++ rest ++ post)) (fun qq rest2 =>
+                       match qq with
+                       | None => PV (RDot, st) rest2
+                       | Some (mn, mx) =>
+                           match rest2 with
+                           | 63%N :: rest3 => if xpath then PV (RQuant RDot mn mx false, st) rest3 else PI
+                           | _ => PV (RQuant RDot mn mx true, st) rest2
+                           end
+                       end) = PV (dot_re q, st) (rest ++ post)).
+    { destruct q as [[k rel]|]; cbn [qtext dot_re okqq] in *.
+      - apply andb_true_iff in Hkq as [Hrx Hkq]. cbn [app]. rewrite <- app_assoc. rewrite (p_quant_sym k _ Hkq). cbn [pbind].
+        destruct rel; cbn [app negb].
+        + cbn [negb orb] in Hrx. rewrite Hrx. reflexivity.
+        + apply (not_qmark_match (rest ++ post)). exact Hh.
+      - cbn [app]. rewrite (head_fine_quant (rest ++ post) Hh). reflexivity. }
+    rewrite Epiece. cbn [pbind].
+    destruct (IHb Okb post st (dot_re q :: rev (map RChar cs) ++ acc) (S (S f3)) Ht
+                ltac:(fold rest; lia)) as (rs & st' & Eb & Semb & Ob).
+    fold rest in Eb. rewrite Eb.
+    exists (map RChar cs ++ dot_re q :: rs), st'. split.
+    + f_equal. f_equal. f_equal. cbn [rev]. rewrite rev_app_distr, rev_involutive, <- !app_assoc. cbn [app]. reflexivity.
+    + split.
+      { intros m q0 Hm. cbn [Db]. rewrite SE_app.
+      change (dot_re q :: rs) with ([dot_re q] ++ rs).
+      rewrite SE_app. rewrite SE_in. split.
+      * intros (k0 & Hk & Hq). apply SE_in in Hk. destruct Hk as (k1 & Hk1 & Hk).
+        apply SE_run in Hk1; auto. apply SE_one in Hk. rewrite Dd_flags in Hk.
+        assert (k1 <= n) by (apply lit_le in Hk1; tauto).
+        assert (k0 <= n) by (eapply (Dd_le input ci multi single xpath); eauto).
+        apply Semb in Hq; auto.
+        apply in_flat_map. exists k0. split; [|exact Hq]. apply in_flat_map. exists k1. auto.
+      * intros H. apply in_flat_map in H as (k0 & Hk & Hq). apply in_flat_map in Hk as (k1 & Hk1 & Hk).
+        assert (k1 <= n) by (apply lit_le in Hk1; tauto).
+        assert (k0 <= n) by (eapply (Dd_le input ci multi single xpath); eauto).
+        exists k0. split; [|apply Semb; auto].
+        apply SE_in. exists k1. split; [apply SE_run; auto|]. apply SE_one. rewrite Dd_flags. exact Hk. }
+      intros m e Hm. cbn [DbO]. rewrite flat_map_assoc.
+      change (dot_re q :: rs) with ([dot_re q] ++ rs).
+      apply (OS_app (map RChar cs) ([dot_re q] ++ rs) (lit input ci cs)
+               (fun k0 => flat_map (DbO input ci multi single b') (DdO input ci multi single q k0))); auto.
+      * intros m0 e0 Hm0. apply OS_run. exact Hm0.
+      * intros m0 e0 Hm0. apply (OS_app [dot_re q] rs (DdO input ci multi single q) (DbO input ci multi single b')); auto.
+        -- intros m1 e1 Hm1. rewrite OS_one. apply O_dot.
+        -- intros m1 q1 Hm1 Hq1. eapply (DdO_le xpath ci single input multi 0 Hfit Hvalid); eauto.
       * intros m0 q0 Hm0 Hq0. apply lit_le in Hq0. tauto.
   - (* AOne *) intros b IHb Hok post st acc f1 f2 Ht Hf1 Hf2. cbn [show_a ok_a] in *.
     assert (Htb : term_b post) by (destruct Ht as [->|(t & ->)]; [left; auto|right; eauto]).
@@ -461,10 +556,10 @@ Proof.
     destruct f2 as [|f2]; [lia|].
     exists (RSeq rs), st1, post, (RSeq rs :: acc), st1. split; [exact Eb|]. split; [apply p_more_S_stop; exact Ht|].
     split; [discriminate|]. split.
-    2:{ intros p e Hp. change (DaO input ci multi (AOne b) p) with (DbO input ci multi b p).
+    2:{ intros p e Hp. change (DaO input ci multi single (AOne b) p) with (DbO input ci multi single b p).
         cbn [rev]. rewrite flat_map_app. cbn [flat_map]. rewrite app_nil_r, OS_seq, (Ob p e Hp). reflexivity. }
     intros p q Hp.
-    assert (So : In q (E (RSeq rs) p) <-> In q (Db input ci multi b p)) by (apply (Semb p q Hp)).
+    assert (So : In q (E (RSeq rs) p) <-> In q (Db input ci multi single b p)) by (apply (Semb p q Hp)).
     cbn [Da]. split.
     + intros (x & [<-|Hx] & Hq); [right; apply So; exact Hq|left; eauto].
     + intros [(x & Hx & Hq)|Hq]; [exists x; split; [right; exact Hx|exact Hq]|exists (RSeq rs); split; [left; reflexivity|apply So; exact Hq]].
@@ -480,10 +575,10 @@ Proof.
     { rewrite p_more_S_bar, E1. cbn [pbind]. exact E2. }
     split; [exact Nbs|]. split.
     2:{ intros p e Hp. rewrite (SemO p e Hp).
-        change (DaO input ci multi (ACons b a') p) with (DbO input ci multi b p ++ DaO input ci multi a' p).
+        change (DaO input ci multi single (ACons b a') p) with (DbO input ci multi single b p ++ DaO input ci multi single a' p).
         cbn [rev]. rewrite flat_map_app. cbn [flat_map]. rewrite app_nil_r, <- app_assoc, OS_seq, (Ob p e Hp). reflexivity. }
     intros p q Hp.
-    assert (So : In q (E (RSeq rs) p) <-> In q (Db input ci multi b p)) by (apply (Semb p q Hp)).
+    assert (So : In q (E (RSeq rs) p) <-> In q (Db input ci multi single b p)) by (apply (Semb p q Hp)).
     rewrite (Sem p q Hp). cbn [Da]. rewrite in_app_iff. split.
     + intros [(x & [<-|Hx] & Hq)|Hq]; [right; left; apply So; exact Hq|left; eauto|right; right; exact Hq].
     + intros [(x & Hx & Hq)|[Hq|Hq]]; [left; exists x; split; [right; exact Hx|exact Hq]|left; exists (RSeq rs); split; [left; reflexivity|apply So; exact Hq]|right; exact Hq].
@@ -491,8 +586,8 @@ Qed.
 
 Theorem spec_parse_grammar a : ok_a xpath a = true ->
   exists r, spec_parse xpath (show_a a) = Valid r
-    /\ (forall p q, p <= n -> (In q (E r p) <-> In q (Da input ci multi a p)))
-    /\ (forall p e, p <= n -> O r p e = DaO input ci multi a p).
+    /\ (forall p q, p <= n -> (In q (E r p) <-> In q (Da input ci multi single a p)))
+    /\ (forall p e, p <= n -> O r p e = DaO input ci multi single a p).
 Proof.
   intros Hok. destruct spec_parses as [_ QA].
   destruct (QA a Hok [] {| opened := 0; closed := [] |} [] (8 * length (show_a a) + 15) (8 * length (show_a a) + 15)
@@ -511,7 +606,7 @@ Lemma nonempty_in (l : list nat) : l <> [] <-> exists q, In q l.
 Proof. destruct l as [|x t]; split; [intros H; contradiction|intros (q & [])|intros _; exists x; left; reflexivity|discriminate]. Qed.
 
 Theorem grammar_end_to_end xpath a fls input :
-  ok_a xpath a = true -> existsb (N.eqb 59) fls = false -> (N.of_nat (length input) < umax)%N ->
+  ok_a xpath a = true -> existsb (N.eqb 59) fls = false -> (N.of_nat (length input) < umax)%N -> valid_in input ->
   match spec_flags xpath fls with
   | Valid sf =>
       s_q sf = false -> s_x sf = false ->
@@ -521,13 +616,13 @@ Theorem grammar_end_to_end xpath a fls input :
   | Unspecified => True
   end.
 Proof.
-  intros Hok Hsep Hfit. pose proof (parse_flags_spec xpath fls Hsep) as PF. unfold regex_new.
+  intros Hok Hsep Hfit Hval. pose proof (parse_flags_spec xpath fls Hsep) as PF. unfold regex_new.
   destruct (parse_flags xpath fls) as [fl|e| |] eqn:Efl; destruct (spec_flags xpath fls) as [sf| |] eqn:Esf;
     try contradiction; try exact I; try (destruct e; try contradiction; reflexivity).
   destruct PF as [(A1 & A2 & A3 & A4 & A5) Hx]. intros Hsq Hsx. cbn [rbind].
   set (pat := show_a a).
   (* the parser's result does not depend on the input; get it once *)
-  destruct (parse_expr_grammar pat xpath (f_case fl) (f_single fl) [] (f_multi fl) 0 (eq_refl : (N.of_nat (length (@nil N)) < umax)%N) a Hok eq_refl)
+  destruct (parse_expr_grammar pat xpath (f_case fl) (f_single fl) [] (f_multi fl) 0 (eq_refl : (N.of_nat (length (@nil N)) < umax)%N) valid_nil a Hok eq_refl)
     as (top & st' & Eparse & Hi & Hb & _ & _).
   assert (Ecomp : compile true fl pat
                   = Ok (mk_program_unopt pat top (parens st') (f_case fl) (f_multi fl) false false)).
@@ -537,28 +632,28 @@ Proof.
   set (prog := mk_program_unopt pat top (parens st') (f_case fl) (f_multi fl) false false).
   assert (Hun : p_hasbol prog = false /\ p_minlen prog = 0%N /\ p_prefix prog = None /\ p_icc prog = None /\ p_pre prog = [])
     by (repeat split; reflexivity).
-  assert (Facts : forall inp, (N.of_nat (length inp) < umax)%N -> simple inp (f_case fl) (f_multi fl) false (parens st') top
-                   /\ (forall p q, p <= length inp -> (In q (Rop inp (f_case fl) (f_multi fl) top p) <-> In q (Da inp (f_case fl) (f_multi fl) a p)))).
-  { intros inp Hfi. destruct (parse_expr_grammar pat xpath (f_case fl) (f_single fl) inp (f_multi fl) (parens st') Hfi a Hok eq_refl)
+  assert (Facts : forall inp, (N.of_nat (length inp) < umax)%N -> valid_in inp -> simple inp (f_case fl) (f_multi fl) false (parens st') top
+                   /\ (forall p q, p <= length inp -> (In q (Rop inp (f_case fl) (f_multi fl) top p) <-> In q (Da inp (f_case fl) (f_multi fl) (f_single fl) a p)))).
+  { intros inp Hfi Hvi. destruct (parse_expr_grammar pat xpath (f_case fl) (f_single fl) inp (f_multi fl) (parens st') Hfi Hvi a Hok eq_refl)
       as (top' & st'' & Eparse' & _ & _ & G & S0 & _).
     rewrite Eparse in Eparse'. injection Eparse' as <- <-. split; [exact G|exact S0]. }
   (* the nullable probe *)
-  pose proof (fragment_no_panic_no_out prog [] (proj1 (Facts [] eq_refl)) Hun 0 st0 (le_n 0) eq_refl) as NP0.
+  pose proof (fragment_no_panic_no_out prog [] (proj1 (Facts [] eq_refl valid_nil)) Hun 0 st0 (le_n 0) eq_refl) as NP0.
   destruct (matches prog [] 0 st0) as [s0|s0| |k0]; try contradiction; cbn [mres_bool rbind].
-  all: destruct (spec_parse_grammar xpath input sf Hfit a Hok) as (r & Espec & Sr & _).
+  all: destruct (spec_parse_grammar xpath input sf Hfit Hval a Hok) as (r & Espec & Sr & _).
   all: eexists; exists r; split; [reflexivity|]; split; [exact Espec|]; unfold is_match; cbn [r_prog].
-  all: pose proof (fragment_no_panic_no_out prog input (proj1 (Facts input Hfit)) Hun 0 st0 (Nat.le_0_l _) eq_refl) as NP.
-  all: pose proof (fragment_is_match_iff prog input (proj1 (Facts input Hfit)) Hun 0 st0 (Nat.le_0_l _) eq_refl) as MI.
+  all: pose proof (fragment_no_panic_no_out prog input (proj1 (Facts input Hfit Hval)) Hun 0 st0 (Nat.le_0_l _) eq_refl) as NP.
+  all: pose proof (fragment_is_match_iff prog input (proj1 (Facts input Hfit Hval)) Hun 0 st0 (Nat.le_0_l _) eq_refl) as MI.
   all: assert (Key : (exists m, 0 <= m <= length input /\ Rop input (p_case prog) (p_multi prog) (p_op prog) m <> [])
                       <-> spec_is_match sf input r = true).
   1,3: (unfold spec_is_match; rewrite existsb_exists; split;
         [intros (m & Hm & Hne); exists m; split; [apply in_seq; lia|];
          apply nonempty_in in Hne; destruct Hne as (q & Hq);
-         apply (proj2 (Facts input Hfit) m q ltac:(lia)) in Hq; rewrite A1, A2 in Hq; apply (Sr m q ltac:(lia)) in Hq;
+         apply (proj2 (Facts input Hfit Hval) m q ltac:(lia)) in Hq; rewrite A1, A2, A3 in Hq; apply (Sr m q ltac:(lia)) in Hq;
          destruct (ends sf input r m); [destruct Hq|reflexivity]
         |intros (m & Hin & Hb'); apply in_seq in Hin; exists m; split; [lia|];
          apply nonempty_in; destruct (ends sf input r m) as [|q t] eqn:Ee; [discriminate|];
-         exists q; apply (proj2 (Facts input Hfit) m q ltac:(lia)); rewrite A1, A2; apply (Sr m q ltac:(lia)); rewrite Ee; left; reflexivity]).
+         exists q; apply (proj2 (Facts input Hfit Hval) m q ltac:(lia)); rewrite A1, A2, A3; apply (Sr m q ltac:(lia)); rewrite Ee; left; reflexivity]).
   all: destruct (matches prog input 0 st0) as [s1|s1| |k1]; try contradiction; cbn [mres_bool rbind]; f_equal; symmetry.
   1,3: apply Key; apply MI; eauto.
   all: apply not_true_is_false; intros Hs; apply Key in Hs; apply MI in Hs; destruct Hs as (s'' & Hs''); discriminate.
@@ -609,6 +704,22 @@ Example ex_tree_br_runs :
   end = (Ok true, Ok false).
 Proof. vm_compute. reflexivity. Qed.
 
+(* non-vacuity with dots: a.*?b(?:.|c).{2} under XPath, without and with flag s on an input with a line feed *)
+Definition ex_tree_dot : alt :=
+  AOne (BD [97%N] (Some (QStar, true))
+          (BGrp [98%N] false (ACons (BD [] None (BEnd [])) (AOne (BEnd [99%N])))
+                (BD [] (Some (QBr [50%N] BrExact, false)) (BEnd [])))).
+Example ex_tree_dot_text :
+  show_a ex_tree_dot = [97; 46; 42; 63; 98; 40; 63; 58; 46; 124; 99; 41; 46; 123; 50; 125]%N /\ ok_a true ex_tree_dot = true.
+Proof. split; reflexivity. Qed.
+Example ex_tree_dot_runs :
+  match regex_new true true (show_a ex_tree_dot) []%N, regex_new true true (show_a ex_tree_dot) [115]%N with
+  | Ok re, Ok res => (is_match re [97; 120; 98; 99; 121; 122]%N, is_match re [97; 10; 98; 99; 121; 122]%N,
+                      is_match res [97; 10; 98; 99; 121; 122]%N, is_match res [97; 10; 98; 99; 121]%N)
+  | _, _ => (Err ESyntax, Err ESyntax, Err ESyntax, Err ESyntax)
+  end = (Ok true, Ok false, Ok true, Ok false).
+Proof. vm_compute. reflexivity. Qed.
+
 (* the grammar half on this grammar: both parsers accept every printed tree *)
 Theorem grammar_accepted fl a :
   ok_a (f_xpath fl) a = true -> f_literal fl = false -> f_ws fl = false ->
@@ -616,9 +727,9 @@ Theorem grammar_accepted fl a :
 Proof.
   intros Hok Hq Hx. split.
   - destruct (spec_parse_grammar (f_xpath fl) [] {| s_i := false; s_m := false; s_s := false; s_x := false; s_q := false |}
-                (eq_refl : (N.of_nat (length (@nil N)) < umax)%N) a Hok)
+                (eq_refl : (N.of_nat (length (@nil N)) < umax)%N) valid_nil a Hok)
       as (r & E & _). eauto.
-  - destruct (parse_expr_grammar (show_a a) (f_xpath fl) (f_case fl) (f_single fl) [] (f_multi fl) 0 (eq_refl : (N.of_nat (length (@nil N)) < umax)%N) a Hok eq_refl)
+  - destruct (parse_expr_grammar (show_a a) (f_xpath fl) (f_case fl) (f_single fl) [] (f_multi fl) 0 (eq_refl : (N.of_nat (length (@nil N)) < umax)%N) valid_nil a Hok eq_refl)
       as (top & st' & Eparse & Hi & Hb & _ & _).
     unfold compile. rewrite Hq, Hx, Eparse. cbn [rbind]. rewrite Hi, Nat.eqb_refl. cbn [negb]. eauto.
 Qed.
@@ -627,7 +738,7 @@ Qed.
    empty string, the token iterator finishes within len+3 steps with at most len+1 tokens - no
    hypothesis about any stage (parser, matcher interface, scan loop) is left *)
 Theorem grammar_tokenize_end_to_end xpath a fls input :
-  ok_a xpath a = true -> existsb (N.eqb 59) fls = false -> (N.of_nat (length input) < umax)%N ->
+  ok_a xpath a = true -> existsb (N.eqb 59) fls = false -> (N.of_nat (length input) < umax)%N -> valid_in input ->
   match spec_flags xpath fls with
   | Valid sf =>
       s_q sf = false -> s_x sf = false ->
@@ -639,12 +750,12 @@ Theorem grammar_tokenize_end_to_end xpath a fls input :
   | _ => True
   end.
 Proof.
-  intros Hok Hsep Hfit. pose proof (parse_flags_spec xpath fls Hsep) as PF. unfold regex_new.
+  intros Hok Hsep Hfit Hval. pose proof (parse_flags_spec xpath fls Hsep) as PF. unfold regex_new.
   destruct (parse_flags xpath fls) as [fl|e| |] eqn:Efl; destruct (spec_flags xpath fls) as [sf| |] eqn:Esf;
     try contradiction; try exact I; try (destruct e; contradiction).
   destruct PF as [(A1 & A2 & A3 & A4 & A5) Hx]. intros Hsq Hsx. cbn [rbind].
   set (pat := show_a a).
-  destruct (parse_expr_grammar pat xpath (f_case fl) (f_single fl) [] (f_multi fl) 0 (eq_refl : (N.of_nat (length (@nil N)) < umax)%N) a Hok eq_refl)
+  destruct (parse_expr_grammar pat xpath (f_case fl) (f_single fl) [] (f_multi fl) 0 (eq_refl : (N.of_nat (length (@nil N)) < umax)%N) valid_nil a Hok eq_refl)
     as (top & st' & Eparse & Hi & Hb & _ & _ & Hfr & _).
   assert (Ecomp : compile true fl pat
                   = Ok (mk_program_unopt pat top (parens st') (f_case fl) (f_multi fl) false false)).
@@ -654,56 +765,56 @@ Proof.
   set (prog := mk_program_unopt pat top (parens st') (f_case fl) (f_multi fl) false false).
   assert (Hun : p_hasbol prog = false /\ p_minlen prog = 0%N /\ p_prefix prog = None /\ p_icc prog = None /\ p_pre prog = [])
     by (repeat split; reflexivity).
-  assert (Facts : forall inp, (N.of_nat (length inp) < umax)%N -> simple inp (f_case fl) (f_multi fl) false (parens st') top).
-  { intros inp Hfi. destruct (parse_expr_grammar pat xpath (f_case fl) (f_single fl) inp (f_multi fl) (parens st') Hfi a Hok eq_refl)
+  assert (Facts : forall inp, (N.of_nat (length inp) < umax)%N -> valid_in inp -> simple inp (f_case fl) (f_multi fl) false (parens st') top).
+  { intros inp Hfi Hvi. destruct (parse_expr_grammar pat xpath (f_case fl) (f_single fl) inp (f_multi fl) (parens st') Hfi Hvi a Hok eq_refl)
       as (top' & st'' & Eparse' & _ & _ & G & _).
     rewrite Eparse in Eparse'. injection Eparse' as <- <-. exact G. }
-  pose proof (fragment_no_panic_no_out prog [] (Facts [] eq_refl) Hun 0 st0 (le_n 0) eq_refl) as NP0.
+  pose proof (fragment_no_panic_no_out prog [] (Facts [] eq_refl valid_nil) Hun 0 st0 (le_n 0) eq_refl) as NP0.
   destruct (matches prog [] 0 st0) as [s0|s0| |k0] eqn:E0; try contradiction; cbn [mres_bool rbind];
     (eexists; split; [reflexivity|]); cbn [r_nullable r_prog]; intros Hn; [discriminate|].
   assert (Hnn : forall s', matches prog [] 0 st0 <> MTrue s') by (intros s' Es; rewrite E0 in Es; discriminate).
-  destruct (fragment_token_bound prog input (Facts input Hfit) Hfr Hun (Facts [] eq_refl) Hnn st0 eq_refl) as (l & El & Hl).
+  destruct (fragment_token_bound prog input (Facts input Hfit Hval) Hfr Hun (Facts [] eq_refl valid_nil) Hnn st0 eq_refl) as (l & El & Hl).
   exists l. split; [exact El|]. split; [exact Hl|].
-  pose proof (fragment_tokenize prog input (Facts input Hfit) Hfr Hun (Facts [] eq_refl) Hnn (S (length input)) 0 st0 eq_refl
+  pose proof (fragment_tokenize prog input (Facts input Hfit Hval) Hfr Hun (Facts [] eq_refl valid_nil) Hnn (S (length input)) 0 st0 eq_refl
                 ltac:(lia) ltac:(lia)) as Et.
   rewrite El in Et. injection Et as ->. reflexivity.
 Qed.
 
 (* ---------------------------------------------------------------- the verdict through the denotation *)
-Definition Dmatch (input : list N) (ci multi : bool) (a : alt) : bool :=
-  existsb (fun m => match Da input ci multi a m with [] => false | _ => true end) (seq 0 (S (length input))).
+Definition Dmatch (input : list N) (ci multi single : bool) (a : alt) : bool :=
+  existsb (fun m => match Da input ci multi single a m with [] => false | _ => true end) (seq 0 (S (length input))).
 
 Theorem compile_grammar_D fl a input :
-  ok_a (f_xpath fl) a = true -> f_literal fl = false -> f_ws fl = false -> (N.of_nat (length input) < umax)%N ->
+  ok_a (f_xpath fl) a = true -> f_literal fl = false -> f_ws fl = false -> (N.of_nat (length input) < umax)%N -> valid_in input ->
   exists prog, compile true fl (show_a a) = Ok prog
     /\ match matches prog input 0 st0 with
-       | MTrue _ => Dmatch input (f_case fl) (f_multi fl) a = true
-       | MFalse _ => Dmatch input (f_case fl) (f_multi fl) a = false
+       | MTrue _ => Dmatch input (f_case fl) (f_multi fl) (f_single fl) a = true
+       | MFalse _ => Dmatch input (f_case fl) (f_multi fl) (f_single fl) a = false
        | MOut | MPanic _ => False
        end.
 Proof.
-  intros Hok Hq Hx Hfit. set (pat := show_a a).
+  intros Hok Hq Hx Hfit Hval. set (pat := show_a a).
   destruct (parse_expr_grammar pat (f_xpath fl) (f_case fl) (f_single fl) [] (f_multi fl) 0
-              (eq_refl : (N.of_nat (length (@nil N)) < umax)%N) a Hok eq_refl)
+              (eq_refl : (N.of_nat (length (@nil N)) < umax)%N) valid_nil a Hok eq_refl)
     as (top & st' & Eparse & Hi & Hb & _ & _).
   exists (mk_program_unopt pat top (parens st') (f_case fl) (f_multi fl) false false). split.
   { unfold compile. rewrite Hq, Hx, Eparse. cbn [rbind]. rewrite Hi, Nat.eqb_refl, Hb. reflexivity. }
   set (prog := mk_program_unopt pat top (parens st') (f_case fl) (f_multi fl) false false).
   assert (Hun : p_hasbol prog = false /\ p_minlen prog = 0%N /\ p_prefix prog = None /\ p_icc prog = None /\ p_pre prog = [])
     by (repeat split; reflexivity).
-  destruct (parse_expr_grammar pat (f_xpath fl) (f_case fl) (f_single fl) input (f_multi fl) (parens st') Hfit a Hok eq_refl)
+  destruct (parse_expr_grammar pat (f_xpath fl) (f_case fl) (f_single fl) input (f_multi fl) (parens st') Hfit Hval a Hok eq_refl)
     as (top' & st'' & Eparse' & _ & _ & G & S0 & _).
   rewrite Eparse in Eparse'. injection Eparse' as <- <-.
   pose proof (fragment_no_panic_no_out prog input G Hun 0 st0 (Nat.le_0_l _) eq_refl) as NP.
   pose proof (fragment_is_match_iff prog input G Hun 0 st0 (Nat.le_0_l _) eq_refl) as MI.
   assert (Key : (exists m, 0 <= m <= length input /\ Rop input (p_case prog) (p_multi prog) (p_op prog) m <> [])
-                <-> Dmatch input (f_case fl) (f_multi fl) a = true).
+                <-> Dmatch input (f_case fl) (f_multi fl) (f_single fl) a = true).
   { unfold Dmatch. rewrite existsb_exists. split.
     - intros (m & Hm & Hne). exists m. split; [apply in_seq; lia|].
       apply nonempty_in in Hne. destruct Hne as (q & Hq'). apply (S0 m q ltac:(lia)) in Hq'.
-      destruct (Da input (f_case fl) (f_multi fl) a m); [destruct Hq'|reflexivity].
+      destruct (Da input (f_case fl) (f_multi fl) (f_single fl) a m); [destruct Hq'|reflexivity].
     - intros (m & Hin & Hb'). apply in_seq in Hin. exists m. split; [lia|].
-      apply nonempty_in. destruct (Da input (f_case fl) (f_multi fl) a m) as [|q t] eqn:Ee; [discriminate|].
+      apply nonempty_in. destruct (Da input (f_case fl) (f_multi fl) (f_single fl) a m) as [|q t] eqn:Ee; [discriminate|].
       exists q. apply (S0 m q ltac:(lia)). rewrite Ee. left. reflexivity. }
   destruct (matches prog input 0 st0) as [s1|s1| |k1]; try contradiction.
   - apply Key. apply MI. eauto.
@@ -720,6 +831,9 @@ Proof.
   - intros cs c k rel b IHb H. apply andb_true_iff in H as [H Hb]. apply andb_true_iff in H as [H Hk].
     apply andb_true_iff in H as [H _]. rewrite H, Hk, (IHb Hb), orb_true_r. reflexivity.
   - intros cs eol b IHb H. rewrite andb_false_r in H. discriminate.
+  - intros cs q b IHb H. apply andb_true_iff in H as [H Hb]. apply andb_true_iff in H as [Hcs Hq].
+    rewrite Hcs, (IHb Hb). destruct q as [[k rel]|]; cbn [okqq] in *; [|reflexivity].
+    apply andb_true_iff in Hq as [_ Hk]. rewrite Hk, orb_true_r. reflexivity.
   - intros b IHb H. exact (IHb H).
   - intros b IHb a IHa H. apply andb_true_iff in H as [H1 H2]. rewrite (IHb H1), (IHa H2). reflexivity.
 Qed.
@@ -728,20 +842,20 @@ Qed.
    compiles under both dialects and the two programs give the same verdict on every input *)
 Theorem grammar_same_in_both_dialects fl fl' a input :
   ok_a false a = true -> f_xpath fl = false -> f_xpath fl' = true ->
-  f_case fl = f_case fl' -> f_multi fl = f_multi fl' ->
+  f_case fl = f_case fl' -> f_multi fl = f_multi fl' -> f_single fl = f_single fl' ->
   f_literal fl = false -> f_literal fl' = false -> f_ws fl = false -> f_ws fl' = false ->
-  (N.of_nat (length input) < umax)%N ->
+  (N.of_nat (length input) < umax)%N -> valid_in input ->
   exists prog prog', compile true fl (show_a a) = Ok prog /\ compile true fl' (show_a a) = Ok prog'
     /\ match matches prog input 0 st0, matches prog' input 0 st0 with
        | MTrue _, MTrue _ | MFalse _, MFalse _ => True
        | _, _ => False
        end.
 Proof.
-  intros Hok Hx Hx' Hc Hm Hq Hq' Hw Hw' Hfit.
-  destruct (compile_grammar_D fl a input ltac:(rewrite Hx; exact Hok) Hq Hw Hfit) as (prog & E & M).
-  destruct (compile_grammar_D fl' a input ltac:(rewrite Hx'; apply (proj2 ok_mono); exact Hok) Hq' Hw' Hfit) as (prog' & E' & M').
+  intros Hok Hx Hx' Hc Hm Hsg Hq Hq' Hw Hw' Hfit Hval.
+  destruct (compile_grammar_D fl a input ltac:(rewrite Hx; exact Hok) Hq Hw Hfit Hval) as (prog & E & M).
+  destruct (compile_grammar_D fl' a input ltac:(rewrite Hx'; apply (proj2 ok_mono); exact Hok) Hq' Hw' Hfit Hval) as (prog' & E' & M').
   exists prog, prog'. split; [exact E|]. split; [exact E'|].
-  rewrite <- Hc, <- Hm in M'.
+  rewrite <- Hc, <- Hm, <- Hsg in M'.
   destruct (matches prog input 0 st0); destruct (matches prog' input 0 st0); try contradiction; auto; congruence.
 Qed.
 
@@ -770,7 +884,7 @@ Theorem grammar_nullable_exact xpath a fls :
   end.
 Proof.
   intros Hok Hsep.
-  pose proof (grammar_end_to_end xpath a fls [] Hok Hsep (eq_refl : (N.of_nat (length (@nil N)) < umax)%N)) as G.
+  pose proof (grammar_end_to_end xpath a fls [] Hok Hsep (eq_refl : (N.of_nat (length (@nil N)) < umax)%N) valid_nil) as G.
   destruct (spec_flags xpath fls) as [sf| |]; try exact I.
   intros Hq Hx. destruct (G Hq Hx) as (re & r & E & Er & Em). exists re, r. split; [exact E|]. split; [exact Er|].
   destruct (nullable_def true xpath (show_a a) fls re E) as (s' & Hn).
@@ -783,7 +897,7 @@ Qed.
    priority order (earlier alternative first, greedy quantifier longest first, reluctant shortest
    first).  From the pattern and flag strings, on the grammar of Proofs/GroupGrammar.v. *)
 Theorem grammar_selected_match xpath a fls input :
-  ok_a xpath a = true -> existsb (N.eqb 59) fls = false -> (N.of_nat (length input) < umax)%N ->
+  ok_a xpath a = true -> existsb (N.eqb 59) fls = false -> (N.of_nat (length input) < umax)%N -> valid_in input ->
   match spec_flags xpath fls with
   | Valid sf =>
       s_q sf = false -> s_x sf = false ->
@@ -797,13 +911,13 @@ Theorem grammar_selected_match xpath a fls input :
   | _ => True
   end.
 Proof.
-  intros Hok Hsep Hfit. pose proof (parse_flags_spec xpath fls Hsep) as PF. unfold regex_new.
+  intros Hok Hsep Hfit Hval. pose proof (parse_flags_spec xpath fls Hsep) as PF. unfold regex_new.
   destruct (parse_flags xpath fls) as [fl|e| |] eqn:Efl; destruct (spec_flags xpath fls) as [sf| |] eqn:Esf;
     try contradiction; try exact I; try (destruct e; contradiction).
   destruct PF as [(A1 & A2 & A3 & A4 & A5) Hx]. intros Hsq Hsx. cbn [rbind].
   set (pat := show_a a).
   destruct (parse_expr_grammar pat xpath (f_case fl) (f_single fl) [] (f_multi fl) 0
-              (eq_refl : (N.of_nat (length (@nil N)) < umax)%N) a Hok eq_refl)
+              (eq_refl : (N.of_nat (length (@nil N)) < umax)%N) valid_nil a Hok eq_refl)
     as (top & st' & Eparse & Hi & Hb & _ & _).
   assert (Ecomp : compile true fl pat
                   = Ok (mk_program_unopt pat top (parens st') (f_case fl) (f_multi fl) false false)).
@@ -813,20 +927,20 @@ Proof.
   set (prog := mk_program_unopt pat top (parens st') (f_case fl) (f_multi fl) false false).
   assert (Hun : p_hasbol prog = false /\ p_minlen prog = 0%N /\ p_prefix prog = None /\ p_icc prog = None /\ p_pre prog = [])
     by (repeat split; reflexivity).
-  assert (Facts : forall inp, (N.of_nat (length inp) < umax)%N -> simple inp (f_case fl) (f_multi fl) false (parens st') top
-                   /\ (forall p, p <= length inp -> Rop inp (f_case fl) (f_multi fl) top p = DaO inp (f_case fl) (f_multi fl) a p)).
-  { intros inp Hfi. destruct (parse_expr_grammar pat xpath (f_case fl) (f_single fl) inp (f_multi fl) (parens st') Hfi a Hok eq_refl)
+  assert (Facts : forall inp, (N.of_nat (length inp) < umax)%N -> valid_in inp -> simple inp (f_case fl) (f_multi fl) false (parens st') top
+                   /\ (forall p, p <= length inp -> Rop inp (f_case fl) (f_multi fl) top p = DaO inp (f_case fl) (f_multi fl) (f_single fl) a p)).
+  { intros inp Hfi Hvi. destruct (parse_expr_grammar pat xpath (f_case fl) (f_single fl) inp (f_multi fl) (parens st') Hfi Hvi a Hok eq_refl)
       as (top' & st'' & Eparse' & _ & _ & G & _ & _ & S0 & _).
     rewrite Eparse in Eparse'. injection Eparse' as <- <-. split; [exact G|exact S0]. }
-  pose proof (fragment_no_panic_no_out prog [] (proj1 (Facts [] eq_refl)) Hun 0 st0 (le_n 0) eq_refl) as NP0.
+  pose proof (fragment_no_panic_no_out prog [] (proj1 (Facts [] eq_refl valid_nil)) Hun 0 st0 (le_n 0) eq_refl) as NP0.
   destruct (matches prog [] 0 st0) as [s0|s0| |k0]; try contradiction; cbn [mres_bool rbind].
-  all: destruct (spec_parse_grammar xpath input sf Hfit a Hok) as (r & Espec & _ & Sr).
+  all: destruct (spec_parse_grammar xpath input sf Hfit Hval a Hok) as (r & Espec & _ & Sr).
   all: eexists; exists r; split; [reflexivity|]; split; [exact Espec|]; cbn [r_prog].
   all: assert (E : forall m, m <= length input ->
             map fst (R sf input r m []) = Rop input (p_case prog) (p_multi prog) (p_op prog) m)
          by (intros m Hm; cbn [p_case p_multi p_op prog mk_program_unopt];
-             rewrite (proj2 (Facts input Hfit) m Hm), A1, A2; exact (Sr m [] Hm)).
-  all: pose proof (matches_unopt_spec prog input (proj1 (Facts input Hfit)) Hun 0 st0 (Nat.le_0_l _) eq_refl) as M.
+             rewrite (proj2 (Facts input Hfit Hval) m Hm), A1, A2, A3; exact (Sr m [] Hm)).
+  all: pose proof (matches_unopt_spec prog input (proj1 (Facts input Hfit Hval)) Hun 0 st0 (Nat.le_0_l _) eq_refl) as M.
   all: destruct (matches prog input 0 st0) as [s'|s'| |k1]; try contradiction.
   1,3: (destruct M as (k & q & rest & Hk & Hbefore & Hat & Hq & Hpend);
         rewrite <- (E k) in Hat by lia;
@@ -841,17 +955,17 @@ Proof.
 Qed.
 
 (* ---------------------------------------------------------------- flag x (C14) *)
-Lemma spec_is_match_D xpath a sf input : (N.of_nat (length input) < umax)%N -> ok_a xpath a = true ->
-  exists r, spec_parse xpath (show_a a) = Valid r /\ spec_is_match sf input r = Dmatch input (s_i sf) (s_m sf) a.
+Lemma spec_is_match_D xpath a sf input : (N.of_nat (length input) < umax)%N -> valid_in input -> ok_a xpath a = true ->
+  exists r, spec_parse xpath (show_a a) = Valid r /\ spec_is_match sf input r = Dmatch input (s_i sf) (s_m sf) (s_s sf) a.
 Proof.
-  intros Hfit Hok. destruct (spec_parse_grammar xpath input sf Hfit a Hok) as (r & E & Sr & _).
+  intros Hfit Hval Hok. destruct (spec_parse_grammar xpath input sf Hfit Hval a Hok) as (r & E & Sr & _).
   exists r. split; [exact E|]. unfold spec_is_match, Dmatch.
   assert (G : forall l, (forall m, In m l -> m <= length input) ->
             existsb (fun i => match ends sf input r i with [] => false | _ => true end) l
-            = existsb (fun m => match Da input (s_i sf) (s_m sf) a m with [] => false | _ => true end) l).
+            = existsb (fun m => match Da input (s_i sf) (s_m sf) (s_s sf) a m with [] => false | _ => true end) l).
   { induction l as [|m t IH]; intros Hl; [reflexivity|]. cbn [existsb]. rewrite IH by (intros; apply Hl; right; auto).
     f_equal. assert (Hm : m <= length input) by (apply Hl; left; reflexivity). specialize (Sr m).
-    destruct (ends sf input r m) as [|x1 t1] eqn:E1; destruct (Da input (s_i sf) (s_m sf) a m) as [|x2 t2] eqn:E2; auto.
+    destruct (ends sf input r m) as [|x1 t1] eqn:E1; destruct (Da input (s_i sf) (s_m sf) (s_s sf) a m) as [|x2 t2] eqn:E2; auto.
     - exfalso. apply (proj2 (Sr x2 Hm)). left. reflexivity.
     - exfalso. apply (proj1 (Sr x1 Hm)). left. reflexivity. }
   apply G. intros m Hm. apply in_seq in Hm. lia.
@@ -861,7 +975,7 @@ Qed.
    parses, is the text with the white space outside classes removed (the model's stripper; it equals the
    specification's by C14_strip).  If that text is a pattern of the grammar, the verdicts agree. *)
 Theorem grammar_x_end_to_end xpath a w fls input :
-  ok_a xpath a = true -> existsb (N.eqb 59) fls = false -> (N.of_nat (length input) < umax)%N ->
+  ok_a xpath a = true -> existsb (N.eqb 59) fls = false -> (N.of_nat (length input) < umax)%N -> valid_in input ->
   strip_ws w 0%Z false = show_a a ->
   match spec_flags xpath fls with
   | Valid sf =>
@@ -871,7 +985,7 @@ Theorem grammar_x_end_to_end xpath a w fls input :
   | _ => True
   end.
 Proof.
-  intros Hok Hsep Hfit Hw. pose proof (parse_flags_spec xpath fls Hsep) as PF. unfold regex_new.
+  intros Hok Hsep Hfit Hval Hw. pose proof (parse_flags_spec xpath fls Hsep) as PF. unfold regex_new.
   destruct (parse_flags xpath fls) as [fl|e| |] eqn:Efl; destruct (spec_flags xpath fls) as [sf| |] eqn:Esf;
     try contradiction; try exact I; try (destruct e; contradiction).
   destruct PF as [(A1 & A2 & A3 & A4 & A5) Hx]. intros Hsq Hsx. cbn [rbind].
@@ -879,12 +993,12 @@ Proof.
   set (fl' := {| f_case := f_case fl; f_multi := f_multi fl; f_single := f_single fl; f_ws := false;
                  f_literal := false; f_xpath := f_xpath fl |}).
   assert (Hok' : ok_a (f_xpath fl') a = true) by (cbn [f_xpath fl']; rewrite Hx; exact Hok).
-  destruct (compile_grammar_D fl' a [] Hok' eq_refl eq_refl eq_refl) as (prog & Ec & M0).
-  destruct (compile_grammar_D fl' a input Hok' eq_refl eq_refl Hfit) as (prog' & Ec' & M).
+  destruct (compile_grammar_D fl' a [] Hok' eq_refl eq_refl eq_refl valid_nil) as (prog & Ec & M0).
+  destruct (compile_grammar_D fl' a input Hok' eq_refl eq_refl Hfit Hval) as (prog' & Ec' & M).
   rewrite Ec in Ec'. injection Ec' as <-. rewrite Ec. cbn [rbind].
-  destruct (spec_is_match_D xpath a sf input Hfit Hok) as (r & Er & Es).
+  destruct (spec_is_match_D xpath a sf input Hfit Hval Hok) as (r & Er & Es).
   destruct (matches prog [] 0 st0) as [s0|s0| |k0]; try contradiction; cbn [mres_bool rbind];
     (eexists; exists r; split; [reflexivity|]; split; [exact Er|]); unfold is_match; cbn [r_prog];
     (destruct (matches prog input 0 st0) as [s1|s1| |k1]; try contradiction; cbn [mres_bool rbind]; f_equal;
-     rewrite Es, <- A1, <- A2; symmetry; exact M).
+     rewrite Es, <- A1, <- A2, <- A3; symmetry; exact M).
 Qed.
